@@ -142,15 +142,17 @@ class Gen3(c20.Gen):
             return r.choice([["new", "Date", self.date_format()], ["new", "Date", ["list", self.date_format(), self.date_format()]]])
         if k < 0.5:
             # a quantified (not fixed-width) pattern as a lookbehind assertion: NonFixedWidthPatternException is due
-            lit = r.choice([["lit", r.choice(["a", "ab", "x"])], ["named", "AnyDigit"], ["AnyFrom", "a", "b"]])
+            lit = r.choice([["lit", r.choice(["a", "ab", "x"])], ["named", "AnyDigit"], ["AnyFrom", "a", "b"], ["AnyFrom", "a", "\\"],
+                            ["AnyBetween", "A", "\\"], ["AnyFrom", "]", "x"], ["AnyFrom", "[", "\\"], ["AnyFrom", "+", "*", "?"],
+                            ["AnyButFrom", "\\"], ["lit", "\\"], ["lit", "["]])
             n = r.choice([2, 3, 5])
             q = r.choice([["new", "Optional", lit], ["new", "Indefinite", lit], ["new", "OneOrMore", lit], ["new", "AtLeast", lit, n],
                           ["new", "AtMost", lit, n], ["new", "AtMost", lit, None], ["new", "AtLeastAtMost", lit, 0, n],
                           ["new", "AtLeastAtMost", lit, 1, n], ["new", "AtLeastAtMost", lit, n, None],
                           ["call", "at_most", lit, n], ["call", "at_least", lit, n], ["new", "Optional", lit, False],
                           ["new", "AtMost", lit, n, False]])
-            if r.random() < 0.4:
-                q = ["op", "+", q, r.choice([["lit", "z"], ["named", "AnyLetter"]])]
+            if r.random() < 0.5:
+                q = ["op", "+", q, r.choice([["lit", "z"], ["named", "AnyLetter"], ["AnyFrom", "x", "\\"], ["AnyFrom", "+", "("]])]
             lb = r.choice(["PrecededBy", "NotPrecededBy", "EnclosedBy", "NotEnclosedBy"])
             meth = {"PrecededBy": "preceded_by", "NotPrecededBy": "not_preceded_by", "EnclosedBy": "enclosed_by",
                     "NotEnclosedBy": "not_enclosed_by"}[lb]
